@@ -26,10 +26,85 @@ type SwitchInfo struct {
 // ("" = all tagged switches).
 func (u *Unit) Switches(tag string) []*SwitchInfo {
 	var out []*SwitchInfo
+	// an if / else-if chain comparing the same term with constants is the same dispatch spelled differently
+	inElse := map[*ast.IfStmt]bool{}
+	labelsOf := func(cond ast.Expr) (string, []string) {
+		var tagT string
+		var labels []string
+		ok := true
+		var walk func(e ast.Expr)
+		walk = func(e ast.Expr) {
+			e = ast.Unparen(e)
+			be, isBin := e.(*ast.BinaryExpr)
+			if !isBin {
+				ok = false
+				return
+			}
+			switch be.Op.String() {
+			case "||":
+				walk(be.X)
+				walk(be.Y)
+			case "==":
+				l, r := be.X, be.Y
+				if u.C.ConstOf(l) != "" && u.C.ConstOf(r) == "" {
+					l, r = r, l
+				}
+				if u.C.ConstOf(r) == "" {
+					ok = false
+					return
+				}
+				t := u.C.Term(l)
+				if tagT != "" && tagT != t {
+					ok = false
+					return
+				}
+				tagT = t
+				labels = append(labels, u.C.Term(r))
+			default:
+				ok = false
+			}
+		}
+		walk(cond)
+		if !ok {
+			return "", nil
+		}
+		return tagT, labels
+	}
 	ast.Inspect(u.Body, func(n ast.Node) bool {
 		switch x := n.(type) {
 		case *ast.FuncLit:
 			return false
+		case *ast.IfStmt:
+			if el, ok := x.Else.(*ast.IfStmt); ok {
+				inElse[el] = true
+			}
+			if inElse[x] || x.Init != nil {
+				return true
+			}
+			t, labels := labelsOf(x.Cond)
+			if t == "" || (tag != "" && t != tag) {
+				return true
+			}
+			si := &SwitchInfo{Tag: t, Pos: x.If, Labels: labels}
+			cur := x
+			for {
+				switch e := cur.Else.(type) {
+				case *ast.IfStmt:
+					t2, l2 := labelsOf(e.Cond)
+					if t2 != t || e.Init != nil {
+						return true // a mixed chain is not a dispatch on this term
+					}
+					si.Labels = append(si.Labels, l2...)
+					cur = e
+					continue
+				case *ast.BlockStmt:
+					si.HasDefault = true
+					si.Default = e.List
+				}
+				break
+			}
+			sort.Strings(si.Labels)
+			out = append(out, si)
 		case *ast.SwitchStmt:
 			if x.Tag == nil {
 				return true
